@@ -217,30 +217,33 @@ def eval_escape_family(desc):
     runs = nontrivial = 0
     for n in sizes:
         text = F.escape_text(kinds, quote, prefix, shape, n)
-        small = n <= F.ESCAPE_SMALL[-1]
-        r = F.lex_time_small(text) if small else F.lex_time(text, repeat=3)
+        small = 0 < n <= F.ESCAPE_SMALL[-1]
+        if small:
+            r = F.lex_time_small(text)
+        else:
+            r = F.lex_time(text, repeat=3, stop_at_error=n < 0)
         if r[0] == "timeout":
             rows.append([n, len(text), None])
-            return ("slow", f"{n} repetitions ({len(text)} characters): no result within {r[2]} s",
+            return ("slow", f"size {n} ({len(text)} characters): no result within {r[2]} s",
                     1e9, rows, runs, nontrivial)
         t, ntok, nerr = r
         runs += 1
         nontrivial += 1 if (ntok or nerr) else 0
         rows.append([n, len(text), round(t, 6)])
-        ladder = "small" if small else "medium"
+        ladder = "small" if small else "medium" if n > 0 else "large"
         if ladder not in base:
-            base[ladder] = (n, t)
+            base[ladder] = (len(text), t)
             prev = None
-        n0, t0 = base[ladder]
+        l0, t0 = base[ladder]
         limits = [("absolute limit", LEX_ABS),
-                  (f"{LEX_MARGIN:g} x linear extrapolation from {n0} repetitions ({t0:.6f} s)",
-                   max(LEX_MARGIN * t0 * n / n0, LEX_FLOOR))]
+                  (f"{LEX_MARGIN:g} x linear extrapolation from {l0} characters ({t0:.6f} s)",
+                   max(LEX_MARGIN * t0 * len(text) / l0, LEX_FLOOR))]
         if small and prev is not None:
             limits.append((f"{ESC_STEP_FACTOR:g} x the time at {n - 4} repetitions ({prev:.6f} s)",
                            max(ESC_STEP_FACTOR * max(prev, ESC_NOISE), ESC_STEP_FLOOR)))
         for what, lim in limits:
             if t >= lim:
-                return ("slow", f"{n} repetitions ({len(text)} characters): {t:.4f} s >= {lim:.4f} s = {what}",
+                return ("slow", f"size {n} ({len(text)} characters): {t:.4f} s >= {lim:.4f} s = {what}",
                         t / lim, rows, runs, nontrivial)
         prev = t
     return ("linear", "", 0.0, rows, runs, nontrivial)
@@ -253,10 +256,10 @@ def _escape_work(task):
     for idx, desc in task:
         st, why, excess, rows, runs, nontriv = eval_escape_family(desc)
         worst = 0.0
-        for ladder in (F.ESCAPE_SMALL, F.ESCAPE_MEDIUM):
+        for ladder in (F.ESCAPE_SMALL, F.ESCAPE_MEDIUM, tuple(-c for c in F.ESCAPE_LARGE_CHARS)):
             rr = [r for r in rows if r[0] in ladder and r[2]]
             if len(rr) > 1:
-                worst = max(worst, max(r[2] / rr[0][2] / (r[0] / rr[0][0]) for r in rr[1:]))
+                worst = max(worst, max(r[2] / rr[0][2] / (r[1] / rr[0][1]) for r in rr[1:]))
         out.append((idx, st, why, excess, rows if st != "linear" else None, runs, nontriv,
                     round(worst, 2)))
     return out
@@ -563,7 +566,8 @@ def run(tier):
     R.set("escape_catalogue", {"kinds": list(F.ESCAPE_KINDS), "prefixes": list(F.ESCAPE_PREFIXES),
                                "shapes": list(F.ESCAPE_SHAPES), "literals": ["char", "string"],
                                "repetitions_small": list(F.ESCAPE_SMALL),
-                               "repetitions_medium": list(F.ESCAPE_MEDIUM)})
+                               "repetitions_medium": list(F.ESCAPE_MEDIUM),
+                               "characters_large_first_error_only": list(F.ESCAPE_LARGE_CHARS)})
     R.set("escape_runs", esc_runs)
     R.set("escape_status_histogram", esc_hist)
     R.set("escape_slow_by_signature", {k: [len(v), v[:5]] for k, v in sorted(esc_by_sig.items())})
@@ -621,7 +625,8 @@ def run(tier):
         "error. Escape families: every escape kind (and every unordered pair of kinds, alternating) x char "
         "constant / string x prefix x shape (terminated = over-long for a char constant, unterminated at "
         "end of line / of input, bad escape at the end / start / end-unterminated), n = 8..28 repetitions "
-        "(step 4) and 64, 256, 1024: < 2 s, <= 50 x linear extrapolation from the smallest n of the ladder, "
+        "(step 4), 64, 256, 1024 repetitions, and (single kinds) 4096 / 16384 characters lexed up to the first "
+        "error as parse() does: < 2 s, <= 50 x linear extrapolation from the smallest n of the ladder, "
         "and (small ladder) <= 6 x the time of n-4 once over 2 ms. Signature of a bad family = origin:<function> if one function's own loop explains the growth, "
         "else nest:<X> / pair:<X>+<Y> (a pair is attributed to X when X alone is already super-linear).",
         exhaustive=True,
